@@ -1735,8 +1735,11 @@ fn primal_cert_test(u: &UserEval, c: f64, kappa: f64, tabs: f64, trel: f64) -> R
     if !(c * kappa * u.bz < -tabs * (1.0 / SLACK) + c * kappa * u.bz_mag) {
         return Err(format!("c*kappa*b'z = {:e} is not < -tol_infeas_abs = {:e}", c * kappa * u.bz, -tabs));
     }
-    if !(u.bz < 0.0) {
-        return Err(format!("b'z = {:e} is not negative", u.bz));
+    // sign of the exactly evaluated b'z of the returned (rounded) vector: the solver decided
+    // b̂'ẑ < -tol on its own floating-point sum, which fixes the sign only up to the rounding of
+    // that sum (allowance bz_mag = k·ε·Σ|b_i z_i|)
+    if !(u.bz < u.bz_mag) {
+        return Err(format!("b'z = {:e} is not negative (rounding allowance {:e})", u.bz, u.bz_mag));
     }
     let rhs = trel * c * (-u.bz + u.bz_mag) * 1f64.max(kappa * u.normz);
     if !(u.atz_norm <= rhs * SLACK + u.atz_allow) {
@@ -1748,8 +1751,8 @@ fn dual_cert_test(u: &UserEval, c: f64, kappa: f64, tabs: f64, trel: f64) -> Res
     if !(c * kappa * u.qx < -tabs * (1.0 / SLACK) + c * kappa * u.qx_mag) {
         return Err(format!("c*kappa*q'x = {:e} is not < -tol_infeas_abs = {:e}", c * kappa * u.qx, -tabs));
     }
-    if !(u.qx < 0.0) {
-        return Err(format!("q'x = {:e} is not negative", u.qx));
+    if !(u.qx < u.qx_mag) {
+        return Err(format!("q'x = {:e} is not negative (rounding allowance {:e})", u.qx, u.qx_mag));
     }
     let mq = -u.qx + u.qx_mag;
     let rhs1 = trel * mq * 1f64.max(kappa * u.normx);
